@@ -19,6 +19,8 @@ pub enum Fam {
     Trig(f64),
     /// e^{i b x} (complex valued)
     CExp(f64),
+    /// 1 + x + i x^k (complex polynomial whose imaginary part is the harder one)
+    CPoly(u32),
 }
 impl Fam {
     fn eval(self, x: f64) -> C {
@@ -27,6 +29,7 @@ impl Fam {
             Fam::PolyExp(k, a) => C::new(x.powi(k as i32) * (a * x).exp(), 0.0),
             Fam::Trig(b) => C::new((b * x).cos() + 0.5 * (b * x).sin(), 0.0),
             Fam::CExp(b) => C::new((b * x).cos(), (b * x).sin()),
+            Fam::CPoly(k) => C::new(1.0 + x, x.powi(k as i32)),
         }
     }
     fn antiderivative(self, x: f64) -> C {
@@ -44,6 +47,7 @@ impl Fam {
             }
             Fam::Trig(b) => C::new((b * x).sin() / b - 0.5 * (b * x).cos() / b, 0.0),
             Fam::CExp(b) => C::new((b * x).sin() / b, -(b * x).cos() / b),
+            Fam::CPoly(k) => C::new(x + 0.5 * x * x, x.powi(k as i32 + 1) / (k as f64 + 1.0)),
         }
     }
     /// exponential type (growth rate of derivatives): |f^(m)| <~ type^m max|f|
@@ -55,13 +59,18 @@ impl Fam {
             Fam::Mono(k) => k as f64 / far,
             Fam::PolyExp(k, a) => a.abs() + k as f64 / far,
             Fam::Trig(b) | Fam::CExp(b) => b.abs(),
+            Fam::CPoly(k) => k as f64 / far,
         }
     }
     fn degree(self) -> Option<u32> {
-        if let Fam::Mono(k) = self { Some(k) } else { None }
+        match self {
+            Fam::Mono(k) => Some(k),
+            Fam::CPoly(k) => Some(k.max(1)),
+            _ => None,
+        }
     }
     fn is_complex(self) -> bool {
-        matches!(self, Fam::CExp(_))
+        matches!(self, Fam::CExp(_) | Fam::CPoly(_))
     }
 }
 fn families(t: Tier) -> Vec<Fam> {
@@ -82,6 +91,9 @@ fn families(t: Tier) -> Vec<Fam> {
     }
     for b in [1.0, 4.0] {
         v.push(Fam::CExp(b));
+    }
+    for k in [2u32, 4, 5] {
+        v.push(Fam::CPoly(k));
     }
     v
 }
@@ -161,7 +173,7 @@ impl Check for Interval {
         "finite-interval"
     }
     fn rule(&self) -> String {
-        "tanh-sinh, Gauss-Legendre and adaptive Simpson x integrand family (monomials of every degree up to 21, x^k e^{ax}, trigonometric mixtures, complex e^{ibx}; all normalised to max|f| <= 1, closed-form integrals) x centre x length x tolerance; the integrand closure records every abscissa; signature = (routine, family class, outcome, evaluation-count class)".into()
+        "tanh-sinh, Gauss-Legendre and adaptive Simpson x integrand family (monomials of every degree up to 21, x^k e^{ax}, trigonometric mixtures, complex e^{ibx} and complex polynomials 1 + x + i x^k; all normalised to max|f| <= 1, closed-form integrals) x centre x length x tolerance; the integrand closure records every abscissa; signature = (routine, family class, outcome, evaluation-count class)".into()
     }
     fn axes(&self, t: Tier) -> Value {
         json!({"routines": ROUTINES, "centres": CENTRES, "lengths": LENGTHS, "tol": t.pick(vec![1e-3, 1e-7, 1e-11], vec![1e-3, 1e-5, 1e-7, 1e-9, 1e-11]), "families": format!("{:?}", families(t))})
@@ -254,6 +266,7 @@ impl Check for Interval {
             Fam::PolyExp(..) => "polyexp",
             Fam::Trig(_) => "trig",
             Fam::CExp(_) => "complex",
+            Fam::CPoly(_) => "complex-poly<=5",
         };
         o.sig = format!("{}|{}|{}|{}|reliable:{}", ROUTINES[p.routine], famc, class, match out.asked.len() { 0..=20 => "<=20", 21..=100 => "<=100", 101..=1000 => "<=1000", _ => ">1000" }, reliable);
         o
